@@ -1,6 +1,7 @@
 //! Implementation side of the correspondence check: reads one case per line
 //! on stdin, runs the real crate (built from /repo with --cfg e57_verif),
 //! prints one result line per case in the same format as the model driver.
+mod bits;
 mod dev;
 mod page;
 mod util;
@@ -22,6 +23,9 @@ fn main() {
                 "PW" => page::run_pw(&toks[1..]),
                 "PR" => page::run_pr(&toks[1..]),
                 "CRCPAGE" => page::run_crc(&toks[1..]),
+                "BITS" => bits::run_bits(&toks[1..]),
+                "BW" => bits::run_bw(&toks[1..]),
+                "BR" => bits::run_br(&toks[1..]),
                 k => format!("unknown-kind {}", k),
             }
         };
